@@ -131,29 +131,127 @@ def shape_of(fld):
     return "in" if nn else "i"
 
 
-def doc_of(program):
-    def sel(fields):
-        out = []
-        for f in fields:
-            name = shape_of(f) + f["m"]
-            b = f["b"]
-            sub = ""
-            if b[0] == "obj":
-                sub = " { %s }" % sel(b[1])
-            elif b[0] == "list" and b[2] == "obj":
-                # one selection for all items: union of the items' keys (same key => same field)
-                merged = {}
-                for it in b[3]:
-                    if it[0] == "obj":
-                        for g in it[1]:
-                            merged.setdefault(g["k"], g)
-                sub = " { %s }" % (sel([merged[k] for k in sorted(merged)]) if merged else "__typename")
-            elif SHAPES[shape_of(f)][2] in ("obj", "lobj", "lobjn"):
-                sub = " { __typename }"
-            out.append("k%d: %s%s" % (f["k"], name, sub))
-        return " ".join(out)
+def _root_type(program):
+    q, mu, _types = LAYOUTS[program.get("layout", "distinct")]
+    return mu if program["op"] == "mutation" else q
 
-    return "%s { %s }" % (program["op"], sel(program["fields"]))
+
+def doc_of(program):
+    """the GraphQL document of a program. program["render"] (optional) is a plan for the
+    *root* selection, f["render"] one for the sub-selection of an object field:
+        plan = [item...];  item = ["f", key] | ["inline", typed: bool, plan] | ["spread", name, plan]
+    Keys may occur several times (always with the identical sub-selection, so the occurrences
+    merge); fields the plan does not mention are appended. The response key order of the
+    operation is the order of first occurrence."""
+    frag_defs = []
+
+    def field_text(f):
+        name = shape_of(f) + f["m"]
+        b = f["b"]
+        sub = ""
+        if b[0] == "obj":
+            sub = " { %s }" % sel(b[1], f.get("render"), "T")
+        elif b[0] == "list" and b[2] == "obj":
+            # one selection for all items: union of the items' keys (same key => same field)
+            merged = {}
+            for it in b[3]:
+                if it[0] == "obj":
+                    for g in it[1]:
+                        merged.setdefault(g["k"], g)
+            sub = " { %s }" % (sel([merged[k] for k in sorted(merged)], None, "T") if merged else "__typename")
+        elif SHAPES[shape_of(f)][2] in ("obj", "lobj", "lobjn"):
+            sub = " { __typename }"
+        return "k%d: %s%s" % (f["k"], name, sub)
+
+    def sel(fields, plan, tname):
+        by_key = {f["k"]: f for f in fields}
+        texts = {}
+        used = set()
+
+        def text(k):
+            if k not in texts:
+                texts[k] = field_text(by_key[k])
+            return texts[k]
+
+        def render(items):
+            out = []
+            for it in items:
+                if it[0] == "f":
+                    if it[1] in by_key:
+                        used.add(it[1])
+                        out.append(text(it[1]))
+                elif it[0] == "inline":
+                    inner = render(it[2])
+                    if inner:
+                        out.append("...%s { %s }" % (" on " + tname if it[1] else "", " ".join(inner)))
+                else:
+                    inner = render(it[2])
+                    if inner:
+                        frag_defs.append("fragment %s on %s { %s }" % (it[1], tname, " ".join(inner)))
+                        out.append("..." + it[1])
+            return out
+
+        parts = render(plan or [])
+        parts += [text(f["k"]) for f in fields if f["k"] not in used]
+        return " ".join(parts)
+
+    body = sel(program["fields"], program.get("render"), _root_type(program))
+    return "%s { %s }%s" % (program["op"], body, "".join(" " + d for d in frag_defs))
+
+
+def key_order_of(text):
+    """response keys of the operation in order of first occurrence, at every level, computed
+    from the *document* by an independent grouping (fields, inline fragments and fragment
+    spreads flattened in document order; sub-selections of the occurrences of one key
+    concatenated) -- not by the library's collect_fields. Returns [(key, children), ...]."""
+    from py_gql.lang import ast as A
+    doc = parse(text)
+    frags = {d.name.value: d for d in doc.definitions if isinstance(d, A.FragmentDefinition)}
+    op = [d for d in doc.definitions if isinstance(d, A.OperationDefinition)][0]
+
+    def group(selsets):
+        order, nodes = [], {}
+
+        def walk(sels):
+            for s_ in sels:
+                if isinstance(s_, A.Field):
+                    k = s_.alias.value if s_.alias else s_.name.value
+                    if k not in nodes:
+                        order.append(k)
+                        nodes[k] = []
+                    nodes[k].append(s_)
+                elif isinstance(s_, A.InlineFragment):
+                    walk(s_.selection_set.selections)
+                else:
+                    walk(frags[s_.name.value].selection_set.selections)
+
+        for ss in selsets:
+            walk(ss)
+        return [(k, group([n.selection_set.selections for n in nodes[k] if n.selection_set]))
+                for k in order]
+
+    return group([op.selection_set.selections])
+
+
+def ordered_program(program):
+    """the program with its fields, at every level, in the document's first-occurrence order"""
+    tree = key_order_of(doc_of(program))
+
+    def reorder(fields, children):
+        pos = {k: i for i, (k, _c) in enumerate(children)}
+        sub = dict(children)
+        out = []
+        for f in sorted(fields, key=lambda f: pos["k%d" % f["k"]]):
+            b = f["b"]
+            ch = sub["k%d" % f["k"]]
+            if b[0] == "obj":
+                f = dict(f, b=["obj", reorder(b[1], ch)])
+            elif b[0] == "list" and b[2] == "obj":
+                f = dict(f, b=b[:3] + [[["obj", reorder(it[1], ch)] if it[0] == "obj" else it for it in b[3]]])
+            out.append(f)
+        return out
+
+    return dict(program, fields=reorder(program["fields"], tree))
 
 
 def world_of(program):
@@ -537,6 +635,7 @@ def c_body(b, config):
 
 
 def c_prog(program, config):
+    program = ordered_program(program)   # field order = first-occurrence order in the document
     return "(Prog %s %s)" % ("true" if program["op"] == "mutation" else "false",
                              c_flds(program["fields"], config))
 
